@@ -59,6 +59,10 @@ def gen_case(rng):
     if p['sk'] == 'int':
         p['sv'] = rng.choice([2, -3, 7, -1])
     p['start_rank'] = rng.choice([1, 3])
+    # kind of starting tensor for ew_start: random low rank, or the exact quotient plus a relative perturbation between
+    # 10*eps and 1e-6 (a warm start from a coarser solve), or exactly the quotient, or zeros
+    p['start_kind'] = rng.choice(['random', 'random', 'near', 'near', 'exact', 'zeros'])
+    p['start_near'] = rng.uniform(0.0, 1.0)
     r = rng.random()
     if r < 0.2 and api != 'scalar':
         pts = sorted(set(rng.randint(0, 60) for _ in range(rng.randint(1, 4))))
@@ -101,7 +105,19 @@ def build(p):
     start = None
     if p['api'] == 'ew_start':
         r = p['start_rank']
-        start = TT(gen.rand_cores(N, [1] + [r] * (d - 1) + [1], 'f64', g))
+        sk = p.get('start_kind', 'random')
+        if sk in ('near', 'exact'):
+            qd = gen.dense(x) / gen.dense(y)
+            start = TT(qd, eps=1e-14) if d > 1 else TT(qd)
+            if sk == 'near':
+                lo, hi = math.log10(10 * p['eps']), -6.0
+                delta = 10 ** (lo + (max(hi, lo) - lo) * p.get('start_near', 0.5))
+                pert = TT(gen.rand_cores(N, [1] * (d + 1), 'f64', g))
+                start = start + pert * (delta * gen.fro(qd) / max(gen.fro(gen.dense(pert)), 1e-300))
+        elif sk == 'zeros':
+            start = torchtt.zeros(N) + torchtt.zeros(N)
+        else:
+            start = TT(gen.rand_cores(N, [1] + [r] * (d - 1) + [1], 'f64', g))
     return x, y, start
 
 
